@@ -88,6 +88,12 @@ FILES: list[str] = [
     "base/root1/sub/secret.txt",
     "base/root1/sub/a/x",
     f"base/root1/{U}/x.html",
+    # files whose names are what `..` becomes when a default extension is appended to it
+    "base/root1/...html",
+    "base/root1/...liquid",
+    "base/root1/...txt",
+    "base/root1/a/...html",
+    "base/root1/a/...liquid",
     # root2
     "base/root2/x.html",  # shadowed by root1
     "base/root2/x",  # shadowed by root1
@@ -119,6 +125,9 @@ FILES: list[str] = [
     f"{P}/tpl1/sub/x.liquid",
     f"{P}/tpl1/a/sub/x.html",
     f"{P}/tpl1/a/secret.txt",
+    f"{P}/tpl1/...liquid",
+    f"{P}/tpl1/...html",
+    f"{P}/tpl1/a/...liquid",
     # package path 2
     f"{P}/tpl2/x.liquid",  # shadowed by tpl1
     f"{P}/tpl2/x",  # no suffix: never reachable through a PackageLoader
@@ -273,6 +282,8 @@ def is_plain(name: str) -> bool:
 def suffix_state(last: str) -> str:
     """'none' | 'has' | 'ambiguous': does the final segment carry a file extension?
     (the loaders add the default extension only to names without one)"""
+    if last.startswith(".."):
+        return "ambiguous"  # `...txt`: whether that is a hidden `..txt` or a name with suffix .txt is not documented
     stripped = last.lstrip(".")
     if "." not in stripped:
         return "none"
